@@ -228,7 +228,7 @@ fn iter_history<T: Copy + PartialEq + std::fmt::Debug>(
                 }
             }
             k => {
-                let k = (k - 4).max(0) as usize;
+                let k = usize::try_from((k - 4).max(0)).unwrap_or(usize::MAX);
                 both_ends.0 = true;
                 let (g, w) = (it.nth(k), model.nth(k).copied());
                 if g != w {
@@ -340,7 +340,7 @@ impl Property for C09 {
         "C09"
     }
     fn rule(&self) -> &'static str {
-        "Cases: export.u / export.i (value -> bytes, signed bytes, u32/u64 digit vectors, iterator collections, with round trips), import.bytes (arbitrary byte strings incl. empty, all-zero, 0x00../0xff.. sign-extension padding of 0..9 bytes, through from_bytes_{le,be}, from_signed_bytes_{le,be}, BigInt::from_bytes with all three signs), import.words (u32 word lists with redundant high zeros and odd counts through new / from_slice / assign_from_slice onto an existing value, all three signs), and iterator histories (a value plus up to 12 steps of next / next_back / nth(k) / len / size_hint ending in last, count, collect or rev().collect on iter_u32_digits / iter_u64_digits of BigUint and BigInt) checked step by step against std::slice::Iter over the model's digit list. Values include 2^(8k-1)+{-1,0,1}, +-2^k, 2^k-1 and top digits with a zero upper half. Non-trivial: >= 2 u32 digits (>= 5 bytes for byte imports); for histories additionally steps from both ends."
+        "Cases: export.u / export.i (value -> bytes, signed bytes, u32/u64 digit vectors, iterator collections, with round trips), import.bytes (arbitrary byte strings incl. empty, all-zero, 0x00../0xff.. sign-extension padding of 0..9 bytes, through from_bytes_{le,be}, from_signed_bytes_{le,be}, BigInt::from_bytes with all three signs), import.words (u32 word lists with redundant high zeros and odd counts through new / from_slice / assign_from_slice onto an existing value, all three signs), and iterator histories (a value plus up to 12 steps of next / next_back / nth(k) (k small, around the remaining length, and usize::MAX, usize::MAX-1, usize::MAX/2) / len / size_hint ending in last, count, collect or rev().collect on iter_u32_digits / iter_u64_digits of BigUint and BigInt) checked step by step against std::slice::Iter over the model's digit list. Values include 2^(8k-1)+{-1,0,1}, +-2^k, 2^k-1 and top digits with a zero upper half. Non-trivial: >= 2 u32 digits (>= 5 bytes for byte imports); for histories additionally steps from both ends."
     }
     fn strategy(&self, _tier: Tier) -> BoxedStrategy<Case> {
         let step = prop_oneof![
@@ -348,7 +348,9 @@ impl Property for C09 {
             35 => Just(1i128),
             8 => Just(2i128),
             7 => Just(3i128),
-            15 => (0i128..=5).prop_map(|k| 4 + k),
+            12 => (0i128..=5).prop_map(|k| 4 + k),
+            // nth with arguments at and far beyond the remaining length (incl. usize::MAX: index arithmetic must not wrap)
+            5 => proptest::sample::select(vec![6i128, 7, 8, 12, 13, 64, usize::MAX as i128, usize::MAX as i128 - 1, (usize::MAX / 2) as i128, (usize::MAX / 2) as i128 + 1, u32::MAX as i128]).prop_map(|k| 4 + k),
         ];
         let hist = (any::<bool>(), prop_oneof![70 => gen::nat(3), 30 => value()], vec(step, 0..=12), 0i128..=3, 0i128..=3).prop_map(|(neg, a, steps, term, which)| {
             Case::new(
